@@ -13,11 +13,12 @@ import kdf, dumpgen
 THEOREMS = ["Kdf.Props.C13." + t for t in (
     "get_after_set", "set_frame", "set_wrong_type_noop", "clear_subtree_unset", "clear_frame",
     "iter_each_set_child_once", "newAttr_wf", "lookup_sound", "clone_falls_back", "clone_private_first",
-    "persist_across_reopen", "volatile_dropped", "ancestors_kept", "failed_open_drops_volatile")]
+    "persist_across_reopen", "volatile_dropped", "ancestors_kept", "failed_open_drops_volatile",
+    "numFiles_rollback_sub", "numFiles_rollback_no_stale", "numFiles_fail_no_stale", "version_code_follows_release")]
 
 M64 = (1 << 64) - 1
 TYMAP = dict(number="num", address="addr", string="str", bitmap="bmp", blob="blob", directory="dir", nil="nil")
-HOOKMAP = dict(vmcoreinfo_raw_ops="vmciRaw", num_files_ops="numFiles", ostype_ops="ostype")
+HOOKMAP = dict(vmcoreinfo_raw_ops="vmciRaw", num_files_ops="numFiles", ostype_ops="ostype", linux_ver_ops="utsRelease")
 BENIGN = {None, "dirty_xlat_ops", "linux_dirty_xlat_ops", "xen_dirty_xlat_ops"}
 NOSET = {"file.fd", "xen.version.extra_addr", "arch.byte_order", "file.mmap_policy", "cache.hits", "cache.misses", "file.mmap_cache.hits",
          "file.mmap_cache.misses", "file.read_cache.hits", "file.read_cache.misses"}
@@ -148,6 +149,24 @@ def parse_num(base, s):
     except ValueError:
         return None
     return min(v, M64)
+
+
+def kernel_version(rel):
+    """linux_ver_revalidate: a[.b[.c[anything]]] -> (a << 16) + (b << 8) + c, None = invalid"""
+    m = re.match(r"(\d+)(?:$|\.(\d+)(?:$|\.(\d+)))", rel)
+    if not m:
+        return None
+    return (int(m.group(1)) << 16) + (int(m.group(2) or 0) << 8) + min(int(m.group(3) or 0), 255)     # KERNEL_VERSION caps c at 255
+
+
+def release_text(rng):
+    r = rng.random()
+    a, b, c = rng.randint(2, 6), rng.randint(0, 19), rng.randint(0, 300)
+    if r < 0.1:
+        return "%d" % a
+    if r < 0.2:
+        return "%d.%d" % (a, b)
+    return "%d.%d.%d%s" % (a, b, c, rng.choice(["", "", "-rc%d" % rng.randint(1, 8), "-%d.el9.x86_64" % rng.randint(1, 500), ".%d" % rng.randint(1, 99)]))
 
 
 class World:
@@ -300,6 +319,9 @@ class World:
                     kill(k); del fs.kids[k.name]
         s.plain(n, tok, True)
         if not skip:
+            if n.hook == "utsRelease":
+                # linux.version_code is derived from the release string: every getter answers KERNEL_VERSION(a, b, c)
+                s.plain(s.find(s.root, "linux.version_code"), "num:%d" % (kernel_version(bytes.fromhex(tok[4:]).decode()) or 0), False)
             if n.hook == "vmciRaw":
                 return s.vmci_set(n, blobtext)
             if n.hook == "vmciLine":
@@ -488,6 +510,9 @@ def colliding_pair(rng, prefix):
     return None
 
 
+CAL = None     # (allocations of a file.set.number call before the first slot, allocations per new slot), measured on the implementation
+
+
 def make_files(R, n):
     files = []
     for i in range(n):
@@ -554,18 +579,21 @@ class Hist:
     def __init__(s, R, T, files, fileinfo, hid, blobctr, io):
         s.R, s.rng, s.T, s.files, s.fileinfo, s.hid, s.io = R, R.rng, T, files, fileinfo, hid, io
         s.fail, s.known, s.obs, s.stop = None, [], [], False
+        s.cal = CAL
         s.world = World(T)
         s.views = {0: View(s.world)}
         s.refs, s.iters = {}, {}
         s.ops = []            # (line, expect, mode, note)
         s.blobctr = blobctr
         s.kinds = {}
+        s.nq = 0              # operations that are answered (the `prov` lines for the model are not counted)
         s.emit("new 0", "new ok", "exact")
 
     def emit(s, line, expect, mode, note=None):
         if s.stop:
             return
         s.ops.append((line, expect, mode, note))
+        s.nq += mode != "quiet"
         k = line.split()[0]
         s.kinds[k] = s.kinds.get(k, 0) + 1
         if mode == "quiet":
@@ -691,6 +719,8 @@ class Hist:
         elif ty == "str":
             if n.hook == "ostype" and not wrong:
                 tok = "str:" + hexs(rng.choice(["linux", "xen", "xen", "linux", "bsd"]))
+            elif n.hook == "utsRelease" and not wrong:
+                tok = "str:" + hexs(release_text(rng))
             elif n.hook == "vmciLine":
                 tok = "str:" + hexs(rng.choice(["5", "0x10", "zz", "", "ffffffff81000000", "12"]))
             else:
@@ -719,7 +749,7 @@ class Hist:
         if n is None or not n.settable or n.name == "fd":
             return False
         p = n.path()
-        if p.startswith("cpu."):
+        if p.startswith("cpu.") and p != "cpu.number":
             return False
         if n.hook == "numFiles" and s.world.opened:
             return False
@@ -750,6 +780,15 @@ class Hist:
         c = rng.choice(list(s.views.keys()))
         v = s.views[c]
         overlay = bool(v.chain)
+        r0 = rng.random()
+        if not overlay and r0 < 0.034:
+            if r0 < 0.013:
+                s.step_nfoom(c, v)
+            elif r0 < 0.024:
+                s.step_derived(c, v)
+            else:
+                s.step_appcpu(c, v)
+            return
         r = rng.random()
         if r < 0.16:
             p = s.pick_path(v)
@@ -915,15 +954,142 @@ class Hist:
                 kill(v.chain[0])
             del s.views[c]
             s.emit("free %d" % c, "free", "exact")
-        elif r < 1.0 and not overlay and s.files and not getattr(s.world, "noopen", False):
-            f = rng.randrange(len(s.files))
-            st, prov = s.fileinfo[f]
-            for p, tok, fl in prov:
-                s.emit("prov %s %s %s" % (p, tok, fl), None, "quiet")
-            s.emit("openst %s" % st, None, "quiet")
-            s.world.open(c, prov, failed=(st != "ok"))
-            s.emit("open %d %s" % (c, s.files[f]), "open " + st, "exact", "open#%d" % f)
+        elif r < 1.0 and not overlay:
+            s.do_open(c)
+
+    def openable(s):
+        """files that can be opened now: with a cpu.number set by the application the CPUs of a file would be numbered from
+        that value on (what a fresh open provides is then not what this open provides): only files without CPU notes"""
+        if not s.files or getattr(s.world, "noopen", False):
+            return []
+        cn = World.find(s.world.root, "cpu.number")
+        own = cn.isset and cn.persist
+        return [f for f in range(len(s.files)) if not (own and any(p.startswith("cpu") for p, _, _ in s.fileinfo[f][1]))]
+
+    def do_open(s, c, only=None):
+        fs = [f for f in s.openable() if only is None or f in only]
+        if not fs:
+            return False
+        f = s.rng.choice(fs)
+        st, prov = s.fileinfo[f]
+        for p, tok, fl in prov:
+            s.emit("prov %s %s %s" % (p, tok, fl), None, "quiet")
+        s.emit("openst %s" % st, None, "quiet")
+        s.world.open(c, prov, failed=(st != "ok"))
+        s.emit("open %d %s" % (c, s.files[f]), "open " + st, "exact", "open#%d" % f)
+        s.emit("dump %d" % c, s.exp_dump(), "dump")
+        return True
+
+    # ---- scenario steps (each is a short scripted sequence inside the random history)
+    def step_nfoom(s, c, v):
+        """the file set is grown while the K-th allocation of the call fails: the call is refused (SYSTEM), the tree is as
+        before (the keys of the new slots do not exist), and the set can be grown afterwards"""
+        rng, W = s.rng, s.world
+        num = World.find(W.root, "file.set.number")
+        if W.opened or s.cal is None:
+            return
+        cur = int(num.val[4:]) if num.val else 0
+        if cur > 5:
+            return
+        N = cur + rng.choice([1, 2, 2, 3, 3, 4])
+        base, per = s.cal
+        total = base + per * (N - cur)
+        K = rng.randint(base + 1, total + 1)
+        if K <= total:
+            slot, r = divmod(K - 1 - base, per)
+            stage = 0 if r < per - 2 else (1 if r == per - 2 else 2)
+            W.mod += 1
+            s.emit("nfilesoom %d %d %d %d %d" % (c, N, K, slot, stage), "nfilesoom system", "exact")
+        else:
+            s.emit("nfilesoom %d %d %d - -" % (c, N, K), "nfilesoom " + W.set(num, "num:%d" % N), "exact")
+        s.emit("get %d file.set.number" % c, "get " + s.exp_get(num), "exact")
+        for i in range(cur, N):
+            q = "file.set.%d" % i
+            s.emit("get %d %s" % (c, q), "get " + s.exp_get(v.resolve(q)), "exact")
+        q = "file.set.%d.%s" % (rng.randrange(cur, N), rng.choice(["fd", "name"]))
+        k = rng.randint(0, 15)
+        n = v.resolve(q)
+        s.emit("ref %d %d %s" % (c, k, q), "ref " + ("ok" if n is not None else "nokey"), "exact")
+        if n is not None:
+            s.refs[k] = n
+        else:
+            s.refs.pop(k, None)
+        s.emit("dump %d" % c, s.exp_dump(), "dump")
+        if rng.random() < 0.6:
+            N2 = rng.randint(cur, cur + 4)
+            s.emit("nfiles %d %d" % (c, N2), "nfiles " + W.set(num, "num:%d" % N2), "exact")
+            if N2:
+                q = "file.set.%d.name" % rng.randrange(N2)
+                n = v.resolve(q)
+                if n is not None:
+                    pre, tok, text = s.value_for(n)
+                    s.do_set(pre, "set %d %s %s" % (c, q, tok), "set", v, n, tok, text)
+                    s.emit("ls %d %s" % (c, q.rsplit(".", 1)[0]), "ls ok " + ",".join(sorted(k.name for k in n.parent.kids.values() if k.isset)), "ls")
             s.emit("dump %d" % c, s.exp_dump(), "dump")
+
+    def step_derived(s, c, v):
+        """linux.uts.release is set; the FIRST read of the derived linux.version_code goes through a reference, a
+        sub-reference, an iterator position or the path: every one answers KERNEL_VERSION of the new release"""
+        rng, W = s.rng, s.world
+        rel, vc, lx = (World.find(W.root, q) for q in ("linux.uts.release", "linux.version_code", "linux"))
+        tok = "str:" + hexs(release_text(rng))
+        way = rng.choice(["ref", "ref", "sub", "iter", "iter", "path"])
+        k, k2, i = rng.randint(0, 15), rng.randint(0, 15), rng.randint(0, 7)
+        if way == "ref":        # the reference exists before the source changes
+            s.emit("ref %d %d linux.version_code" % (c, k), "ref ok", "exact")
+            s.refs[k] = vc
+        setway = rng.random()
+        if setway < 0.5:
+            s.do_set([], "set %d linux.uts.release %s" % (c, tok), "set", v, rel, tok, None)
+        else:
+            kr = rng.choice([x for x in range(16) if x not in (k, k2)])
+            base = rng.choice(["linux.uts", "linux"])
+            s.emit("ref %d %d %s" % (c, kr, base), "ref ok", "exact")
+            s.refs[kr] = World.find(W.root, base)
+            s.do_set([], "setsub %d %d %s %s" % (c, kr, "release" if base == "linux.uts" else "uts.release", tok), "setsub", v, rel, tok, None)
+        if way == "ref":
+            s.emit("rget %d %d" % (c, k), "rget " + s.exp_get(vc), "exact")
+        elif way == "sub":
+            s.emit("ref %d %d linux" % (c, k), "ref ok", "exact")
+            s.refs[k] = lx
+            s.emit("sub %d %d %d version_code" % (c, k, k2), "sub ok", "exact")
+            s.refs[k2] = vc
+            s.emit("rget %d %d" % (c, k2), "rget " + s.exp_get(vc), "exact")
+        elif way == "iter":
+            s.start_iter("iter %d %d linux" % (c, i), "iter", i, lx)
+            it, g = s.iters.get(i), 0
+            while it is not None and not s.stop and it["pos"] is not None and it["pos"] is not vc and it["pos"] is not lx and g < 40:
+                s.emit("next %d %d" % (c, i), None, "iter-next", i); g += 1
+            if it is not None and it["pos"] is vc:
+                s.emit("iget %d %d" % (c, i), None, "iter-get", i)
+            elif not s.stop and vc.isset:
+                s.fail = (len(s.ops) - 1, "iteration of 'linux' did not stop at version_code although it has a value", None)
+                s.stop = True
+        s.emit("get %d linux.version_code" % c, "get " + s.exp_get(vc), "exact")
+
+    def step_appcpu(s, c, v):
+        """cpu.number is set by the application; a file without CPU notes is opened in the same context: the value persists
+        and every getter returns it"""
+        rng, W = s.rng, s.world
+        cn = World.find(W.root, "cpu.number")
+        tok = "num:%d" % rng.choice([rng.randint(1, 64), rng.randint(1, 4096), rng.getrandbits(32)])
+        k = rng.randint(0, 15)
+        if rng.random() < 0.5:
+            s.do_set([], "set %d cpu.number %s" % (c, tok), "set", v, cn, tok, None)
+        else:
+            s.emit("ref %d %d cpu.number" % (c, k), "ref ok", "exact")
+            s.refs[k] = cn
+            s.do_set([], "rset %d %d %s" % (c, k, tok), "rset", v, cn, tok, None)
+        if not s.do_open(c):
+            return
+        way = rng.choice(["path", "ref", "gett"])
+        if way == "ref":
+            s.emit("ref %d %d cpu.number" % (c, k), "ref ok", "exact")
+            s.refs[k] = cn
+            s.emit("rget %d %d" % (c, k), "rget " + s.exp_get(cn), "exact")
+        elif way == "gett":
+            s.emit("gett %d cpu.number num" % c, "gett " + s.exp_get(cn), "exact")
+        s.emit("get %d cpu.number" % c, "get " + s.exp_get(cn), "exact")
 
     def live_refs(s):
         return [k for k, n in s.refs.items() if n.alive]
@@ -932,7 +1098,7 @@ class Hist:
         return [i for i, it in s.iters.items() if it["dir"].alive and (it["pos"] is None or it["pos"].alive)]
 
     def do_set(s, pre, line, op, v, n, tok, text):
-        if v.chain and (n.hook in ("vmciRaw", "numFiles", "vmciLine")) and tok.split(":")[0] == n.ty:
+        if v.chain and (n.hook in ("vmciRaw", "numFiles", "vmciLine", "utsRelease")) and tok.split(":")[0] == n.ty:
             return          # dynamic creation through a private dictionary: see REPORT (not generated)
         for l in pre:
             s.emit(l, "mkblob ok", "exact")
@@ -1098,7 +1264,7 @@ def run(R):
     lib, cflags = R.build_lib()
     T = key_table(R.tree())
     proof = R.prove(["Kdf.Props.C13"], THEOREMS)
-    exe = R.build_harness("s_attr", ["s_attr.c"], ldflags=["-Wl,--wrap=_kdumpfile_priv_clear_volatile_attrs"])
+    exe = R.build_harness("s_attr", ["s_attr.c"], ldflags=["-Wl,--wrap=_kdumpfile_priv_clear_volatile_attrs", kdf.ALLOC_WRAP])
     quick = R.tier == "quick"
     nhist = 100 if quick else 12000
     nops = 90 if quick else 130
@@ -1121,6 +1287,49 @@ def run(R):
         pre = po[7 * i + 4]
         src = ("dump " + pre[len("predump "):]) if (st != "ok" and pre != "predump -") else po[7 * i + 5]
         fileinfo.append((st, provided_from_dump(parse_dump(src) or [])))
+    # every way of getting answers the same on the FIRST read: what the walk by iterator positions (kdump_attr_ref_get) printed
+    # for a freshly opened file is compared with kdump_get_attr by path on another fresh context (attributes that are computed
+    # when they are read - CPU registers from PRSTATUS, version codes, page maps - must not show a placeholder to either)
+    fr, frmap = [], []
+    for i, f in enumerate(files):
+        ents = parse_dump(po[7 * i + 5]) if fileinfo[i][0] == "ok" else None
+        if not ents:
+            continue
+        fr += ["new 15", "open 15 %s" % f]
+        for q, tok, fl in ents:
+            fr.append("get 15 %s" % q); frmap.append((len(fr) - 1, i, q, tok))
+        fr.append("free 15")
+    if fr:
+        rcf, outf, errf = R.run_harness(exe, stdin_text="\n".join(tl + fr) + "\n", timeout=120)
+        of = kdf.obs(outf)
+        if rcf != 0 or len(of) != len(fr):
+            R.violation("reading the attributes of a freshly opened file by path fails: " + errf.strip()[:600],
+                        dict(stream="attr", stage="first-read", stderr=errf[-1500:]))
+        else:
+            for li, i, q, tok in frmap:
+                if of[li] != "get ok " + tok:
+                    R.violation("first read after opening %s: \"%s\" through an iterator position (kdump_attr_ref_get) is '%s', by path "
+                                "(kdump_get_attr) on another fresh context '%s': the getters disagree" % (os.path.basename(files[i]), q, tok, of[li][4:]),
+                                dict(stream="attr", stage="first-read", file=os.path.basename(files[i]), key=q, by_iterator=tok, by_path=of[li],
+                                     history=["new 15", "open 15 <file>", "dump 15", "new 15", "open 15 <file>", "get 15 " + q],
+                                     note="file written by make_files with the same seed (ELF with PRSTATUS notes built by c13.prstatus)"))
+                    break
+    # how many allocations a call that grows the file set makes (per new slot): the failing allocation of `nfilesoom` is
+    # placed with it, and the model is told which slot and which of its three attributes it hits
+    global CAL
+    CAL = None
+    rcc, outc, errc = R.run_harness(exe, stdin_text="\n".join(tl + ["new 12", "nfilescnt 12 1", "nfilescnt 12 3", "nfilescnt 12 4", "free 12"]) + "\n")
+    oc = kdf.obs(outc)
+    try:
+        c1, c3, c4 = (int(oc[j].split()[2]) for j in (1, 2, 3))
+        per = c4
+        base = c1 - per
+        if rcc == 0 and per >= 3 and base >= 0 and c3 == base + 2 * per:
+            CAL = (base, per)
+    except (IndexError, ValueError):
+        pass
+    if CAL is None:
+        R.notes.append("allocations per file.set slot could not be measured (%s): no allocation-failure steps" % oc[:5])
     # tree shape, stated directly on the implementation: an attribute that reports a value has a parent that reports one
     # (otherwise no walk from the root can reach it) -- on a fresh context, after setting an option below each of the
     # initial directories, and after opening each file
@@ -1172,7 +1381,7 @@ def run(R):
         h = Hist(R, T, files, fileinfo, hid, blobctr, io)
         n = R.rng.randint(nops // 2, nops)
         guard = 0
-        while len(h.ops) < n and not h.stop and guard < 20 * n:
+        while h.nq < n and not h.stop and guard < 20 * n:
             h.step(); guard += 1
         h.finish()
         hists.append(h)
